@@ -360,7 +360,7 @@ fn c20(tier: Tier) -> i32 {
         split: Option<Vec<usize>>,
     }
     let mut jobs: Vec<Job> = vec![];
-    let locale_sets: Vec<(Vec<&'static str>, &'static str)> = vec![(vec!["en", "fr"], "en"), (vec!["fr", "en"], "en"), (vec!["fr"], "en"), (vec!["en", "fr", "sr-Cyrl", "zh-Hant-TW"], "en"), (vec!["en", "fr", "ca-valencia", "en-US-posix"], "en"), (vec!["en", "en-GB", "fr", "de-AT"], "en")];
+    let locale_sets: Vec<(Vec<&'static str>, &'static str)> = vec![(vec!["en", "fr"], "en"), (vec!["fr", "en"], "en"), (vec!["fr"], "en"), (vec!["en", "fr", "sr-Cyrl", "zh-Hant-TW"], "en"), (vec!["en", "fr", "ca-valencia", "en-US-posix"], "en"), (vec!["en", "en-GB", "fr", "de-AT"], "en"), (vec!["en", "fr", "ca", "ca-valencia", "de-CH", "de-CH-1996"], "en")];
     for fam in FAMILIES {
         for pl in PLACEMENTS {
             for namespaced in [false, true] {
@@ -554,7 +554,7 @@ fn c20(tier: Tier) -> i32 {
     rep.sample(json!({"uses": [["currency", "fk-target"]], "namespaced": true}));
     rep.sample(json!({"uses": [["plural", "surplus-only"], ["list", "range-branch"]], "expect": "list data only"}));
     let mut cov = serde_json::Map::new();
-    cov.insert("rule".into(), json!(format!("families {FAMILIES:?} x placements {PLACEMENTS:?} (the other locale / the default locale holds a non-string literal at the key; none; default locale top level; non-default locale only; subkey depth 2 with the other locale null; inside a range branch; inside a plural form; only as the target of a foreign key from another key/namespace; second namespace only; only in a surplus key the default locale lacks = unreachable): every single placement x namespaced or not x 6 locale sets (default first / last / unlisted, script+region names, names with variant subtags, locales whose files hold no literal text), and pairs of (family, placement) (quick: a quarter, thorough: all); plus ONE variable of one key carrying formatters of several families: every permutation of every subset of <= 3 (thorough 4) of the 6 formatter families x 4 spreads over the locales (all in the default's string; first in the default, rest in the other locale; all in the other locale with the variable plain in the default; inside a subkey with the last only in the other locale) x namespaced or not; plus every way of spreading plural / number / currency / date / list over three namespaces a < b < c or leaving them out (4^5 projects; quick: at most one left out); oracle: characteristic data key of a family (plurals/cardinal@1 for cardinal and plurals/ordinal@1 for ordinal plurals - required by the kind in use, forbidden without any plural -, list/and@1, datetime/timesymbols@1, currency/essentials@1, decimal/symbols@1 for number-or-datetime) requested iff a reachable key uses the family in some locale (model: union over locales of the resolved trees of the default locale's keys); the driver build_datagen_driver() returns holds exactly the derived keys and the configured language identifiers, build_datagen_driver_with_options([o]) for each of the 5 options holds exactly the derived keys plus the option's own; get_locales / get_locales_langids == configured set, get_namespaces == configured list, files_paths complete; distinct_nontrivial = distinct used-family sets")));
+    cov.insert("rule".into(), json!(format!("families {FAMILIES:?} x placements {PLACEMENTS:?} (the other locale / the default locale holds a non-string literal at the key; none; default locale top level; non-default locale only; subkey depth 2 with the other locale null; inside a range branch; inside a plural form; only as the target of a foreign key from another key/namespace; second namespace only; only in a surplus key the default locale lacks = unreachable): every single placement x namespaced or not x 7 locale sets (default first / last / unlisted, script+region names, names with variant subtags, locales whose files hold no literal text, locales that differ by a variant subtag only), and pairs of (family, placement) (quick: a quarter, thorough: all); plus ONE variable of one key carrying formatters of several families: every permutation of every subset of <= 3 (thorough 4) of the 6 formatter families x 4 spreads over the locales (all in the default's string; first in the default, rest in the other locale; all in the other locale with the variable plain in the default; inside a subkey with the last only in the other locale) x namespaced or not; plus every way of spreading plural / number / currency / date / list over three namespaces a < b < c or leaving them out (4^5 projects; quick: at most one left out); oracle: characteristic data key of a family (plurals/cardinal@1 for cardinal and plurals/ordinal@1 for ordinal plurals - required by the kind in use, forbidden without any plural -, list/and@1, datetime/timesymbols@1, currency/essentials@1, decimal/symbols@1 for number-or-datetime) requested iff a reachable key uses the family in some locale (model: union over locales of the resolved trees of the default locale's keys); the driver build_datagen_driver() returns holds exactly the derived keys and the configured language identifiers, build_datagen_driver_with_options([o]) for each of the 5 options holds exactly the derived keys plus the option's own; get_locales / get_locales_langids == configured set, get_namespaces == configured list, files_paths complete; distinct_nontrivial = distinct used-family sets")));
     cov.insert("exhaustive".into(), json!(tier == Tier::Thorough));
     cov.insert("used_family_sets".into(), json!(*classes.lock().unwrap()));
     let _ = std::fs::remove_dir_all(&root);
@@ -739,10 +739,79 @@ fn c11(tier: Tier) -> i32 {
         });
         rep.count("export_histories", n_hist as u64);
     }
+    // ---- the tables the build helper writes are the tables the macro indexes into --------------------------
+    // the macro reads the project with the ICU feature checks on (skip_icu_cfg = false), the build helper with
+    // them off: for every project of the corpus (plurals with keys in between their forms, ranges, references,
+    // namespaces, inherits) both ways must give the same list of strings, in the same order, per file
+    {
+        let corpus = vmodel::gen::corpus(tier);
+        let compared = Mutex::new(0u64);
+        let with_plural = Mutex::new(0u64);
+        par_for(corpus.len(), |w, i| {
+            let p = &corpus[i];
+            let dir = root.join(format!("m{w}"));
+            let _ = std::fs::remove_dir_all(&dir);
+            p.materialise(&dir, JSON).unwrap();
+            rep.eval(1);
+            let helper = match observe(&dir, None) {
+                Out::Ok(infos) => infos,
+                Out::Panic(m) => {
+                    rep.violation(format!("C11/vbuild/tables: PANIC {m} :: {}", vmodel::report::truncate(&p.describe(), 300)), json!({}));
+                    return;
+                }
+                Out::Err(_) => return,
+            };
+            let d = dir.clone();
+            let macro_way = std::panic::catch_unwind(move || leptos_i18n_parser::parse_locales::parse_locales(false, Some(d)).map(|(k, _, _)| k).map_err(|e| e.to_string()));
+            let keys = match macro_way {
+                Ok(Ok(k)) => k,
+                _ => return,
+            };
+            use leptos_i18n_parser::parse_locales::locale::BuildersKeys;
+            let mut macro_tables: BTreeMap<(Option<String>, String), Vec<String>> = BTreeMap::new();
+            match &keys {
+                BuildersKeys::NameSpaces { namespaces, .. } => {
+                    for ns in namespaces {
+                        for l in &ns.locales {
+                            macro_tables.insert((Some(ns.key.name.to_string()), l.name.name.to_string()), l.strings.iter().map(|s| s.to_string()).collect());
+                        }
+                    }
+                }
+                BuildersKeys::Locales { locales, .. } => {
+                    for l in locales {
+                        macro_tables.insert((None, l.name.name.to_string()), l.strings.iter().map(|s| s.to_string()).collect());
+                    }
+                }
+            }
+            if p.describe().contains("_other") {
+                *with_plural.lock().unwrap() += 1;
+            }
+            for (k, text) in &helper.tables {
+                let decoded: Vec<String> = serde_json::from_str(&text[0]).unwrap_or_default();
+                *compared.lock().unwrap() += 1;
+                match macro_tables.get(k) {
+                    None => rep.violation(format!("C11/vbuild/tables: the build helper exports a table for {k:?} the macro does not know :: {}", vmodel::report::truncate(&p.describe(), 300)), json!({"project": p.describe()})),
+                    Some(m) if *m != decoded => rep.violation(
+                        format!("C11/vbuild/tables: table of {k:?}: the build helper writes {:?}, the macro indexes into {:?} :: {}", decoded, m, vmodel::report::truncate(&p.describe(), 300)),
+                        json!({"project": p.describe()}),
+                    ),
+                    _ => {}
+                }
+            }
+            if helper.tables.len() != macro_tables.len() {
+                rep.violation(format!("C11/vbuild/tables: {} tables from the build helper, {} in the macro :: {}", helper.tables.len(), macro_tables.len(), vmodel::report::truncate(&p.describe(), 300)), json!({}));
+            }
+        });
+        rep.count("tables_compared_with_macro_parse", *compared.lock().unwrap());
+        rep.count("corpus_projects_with_plurals", *with_plural.lock().unwrap());
+        if *compared.lock().unwrap() == 0 {
+            rep.violation("C11/vbuild/tables: nothing compared".to_string(), json!({}));
+        }
+    }
     rep.nontriv(strings.len() as u64);
     rep.sample(json!({"strings": ["\u{a0}", "\u{200b}\\", "\"\u{0}"]}));
     let mut cov = serde_json::Map::new();
-    cov.insert("rule".into(), json!("the same Unicode sweep as the L1 engine (every scalar value in thorough; all below U+3000, every 7th above and the edges in quick; all pairs over 14 hostile characters; an HTML/JS-hostile mix), flat two-locale and nested + namespaced layouts; TranslationsInfos::parse_at_dir -> get_translations(): translations_formatter() text == bytes written by write_to_dir; the file must parse with serde_json (strict JSON) to a list of strings, each a literal of the project, and for the flat default locale exactly the literal set; histories: every sequence of <= 3 exports over 4 variants of one project (long / short texts, fewer / more keys) into the SAME output directory, flat and namespaced: after every export each file is byte for byte the table of the project exported last and strict JSON"));
+    cov.insert("rule".into(), json!("the same Unicode sweep as the L1 engine (every scalar value in thorough; all below U+3000, every 7th above and the edges in quick; all pairs over 14 hostile characters; an HTML/JS-hostile mix), flat two-locale and nested + namespaced layouts; TranslationsInfos::parse_at_dir -> get_translations(): translations_formatter() text == bytes written by write_to_dir; the file must parse with serde_json (strict JSON) to a list of strings, each a literal of the project, and for the flat default locale exactly the literal set; every project of the model corpus: the decoded table the helper exports == the strings list of the macro-way parse (parse_locales with the ICU feature checks on), file by file, order included; histories: every sequence of <= 3 exports over 4 variants of one project (long / short texts, fewer / more keys) into the SAME output directory, flat and namespaced: after every export each file is byte for byte the table of the project exported last and strict JSON"));
     cov.insert("exhaustive".into(), json!(tier == Tier::Thorough));
     let _ = std::fs::remove_dir_all(&root);
     rep.finish(cov, &["serde_json is the reference JSON decoder"])
